@@ -18,7 +18,7 @@ CHECKS = {
    design_ref="DESIGN.md section 6, C01",
    note="Trusted: TLC, the projection code in harness/project.h (public accessors only). Not covered: backends that need hardware not present; RESTRICT_TO_*BINDING flags on the live machine."),
  "C02": dict(
-   technique="TLA+ model of histories of public modifying calls (spec/MC_TopoOps.tla: BFS over every edge to depth 2 + simulation to depth 8-10, valid and invalid arguments) replayed on the rebuilt library; after every call TLC evaluates the per-call relation of spec/TopoOps.tla, the WellFormed predicate, gp_index/userdata stability and unchanged-on-error on the recorded projections (spec/TraceTopo.tla)",
+   technique="TLA+ model of histories of public modifying calls (spec/MC_TopoOps.tla: every single call, BFS over every edge to depth 2, focused configurations to depth 3 (tree-reshaping calls) and 4 (store-filling calls), simulation to depth 8-10, valid and invalid arguments, edges sampled round-robin over model-computed call signatures) replayed on the rebuilt library over synthetic and XML-sourced families (nested memory, permuted NUMA indexes, memory-side caches, offline and dropped-disallowed processors, a topology whose stores are filled from the start); after every call TLC evaluates the per-call relation of spec/TopoOps.tla (incl. the frame of the distances / memattr / cpukind stores), the WellFormed predicate, gp_index/userdata stability and unchanged-on-error on the recorded projections (spec/TraceTopo.tla)",
    category="model_checking",
    text="Each call of each history is judged by a relation transcribed from hwloc.h (what must change, what must not, which errors leave the topology untouched) plus the full C01 predicate, on the complete projection of the topology; histories come from exhaustive enumeration of the bounded model's edges (sampled with VERIF_SEED in the quick tier) and from TLC simulation.",
    design_ref="DESIGN.md section 6, C02",
@@ -36,11 +36,11 @@ CHECKS = {
    design_ref="DESIGN.md section 6, C11",
    note="Trusted: enum values of the pinned hwloc.h, the recorder's projection (guard counts, first NUL), XML load as the only source of objects. One known finding (mixed unified/data cache level prints two texts)."),
  "C12": dict(
-   technique="the C02 model with two topology slots (spec/MC_TopoOps.tla, TwoSlots): histories of modifications, dup, modifications on either copy, destroy in either order, replayed on the rebuilt ASan library; TLC checks DupRel (full projection equality including userdata pointers and XML export digest) and, after every later call, that the copy that was not the target reports exactly the same projection and digest (spec/TraceTopo.tla)",
+   technique="the C02 model with two topology slots (spec/MC_TopoOps.tla, TwoSlots): histories of modifications, dup, modifications on either copy - also the same call mirrored on both copies (Mirror) -, destroy in either order, replayed on the rebuilt ASan+LSan library, plus every family x load configuration and every bundled XML file (thorough: every snapshot) loaded, duplicated and restricted; TLC checks DupRel (full projection equality including stores, userdata pointers and XML export digest), the Twin relation (the same call on a copy and on its original returns the same answers and leaves the same projection) and, after every later call, that the copy that was not the target reports exactly the same projection and digest (spec/TraceTopo.tla)",
    category="model_checking",
    text="Equivalence is equality of the complete public projection plus the XML export digest; independence is the frame condition evaluated after every call on the other copy; invalid accesses at destroy are observed by ASan in the recorder (Crash event, which the specification rejects).",
    design_ref="DESIGN.md section 6, C12",
-   note="Trusted: TLC, projection code. 'Shares no mutable storage' is decided observationally (the other copy never moves, no sanitizer event), not by pointer analysis; leak detection is not yet wired."),
+   note="Trusted: TLC, projection code. 'Shares no mutable storage' is decided observationally (the other copy never moves, the two copies answer every later call alike, no sanitizer or leak event), not by pointer analysis."),
  "C04": dict(
    technique="TLC-checked TLA+ specification of the three bitmap text formats (printers, documented-grammar parsers, snprintf/sscanf relations: spec/BitmapStr.tla, MC_BitmapStr.tla); model histories are replayed on the ASan-built library with guard bytes and the recorded traces are validated by TLC (spec/TraceBitmapStr.tla)",
    category="model_checking",
@@ -66,7 +66,7 @@ CHECKS = {
    design_ref="DESIGN.md section 6, C13",
    note="Trusted: TLC with the Json module, the recorder (no oracle logic), gp_index stability across dup and v3 XML. Returned order is not checked (bag comparison). Grouping quality is not specified; only hwloc_topology_check after GROUP commits. Must/May sets where the documentation leaves things open."),
  "C06": dict(
-   technique="TLA+ model of structure-aware XML mutations (spec/MC_XmlMut.tla: every single drop/set/duplicate-attribute, duplicate/drop/swap-element, truncate and version mutation of each base document, simulated 2-3 mutation recipes) plus seeded byte-level damage; each document is loaded by the ASan+UBSan+LSan recorder (harness/hwv_xmlload.c, watchdog) under both XML import backends and the recorded event is validated by TLC against the lifecycle relation and the WellFormed predicate (spec/TraceXmlLoad.tla)",
+   technique="TLA+ model of structure-aware XML mutations (spec/MC_XmlMut.tla: every single drop/set/duplicate-attribute, duplicate/drop/swap-element, cut, DOCTYPE, retype, text-content, truncate and version mutation of each base document, partitioned by the model into classes - mutation kind x element name x attribute name x pool value - of which every one is replayed, simulated 2-3 mutation recipes) plus seeded byte-level damage; each document is loaded by the ASan+UBSan+LSan recorder (harness/hwv_xmlload.c, watchdog) under both XML import backends and the recorded event is validated by TLC against the lifecycle relation and the WellFormed predicate (spec/TraceXmlLoad.tla)",
    category="model_checking",
    text="The state-machine clauses are decided by the specification on every document: set/load return 0 or -1, a load that succeeds yields a well-formed topology (C01) on which the whole read-only battery returns, a load that fails leaves a topology that is destroyed or configured and loaded again, hwloc's own exports load. Memory safety, hangs and leaks are observed by the instrumented recorder and turned into events that the specification rejects; that part is exploration, not proof.",
    design_ref="DESIGN.md section 6, C06",
